@@ -52,3 +52,9 @@ package currency
 //@   ensures from == to ==> r != nil && *r == amount && fresh(r)
 //@   ensures from != to && r != nil ==> fresh(r) && (exists i int :: 0 <= i && i < len(rates) && rates[i].From == from && rates[i].To == to && *r == convS(amount, rates[i].Amount, subunits(to)) && (forall j int :: 0 <= j && j < i ==> !(rates[j].From == from && rates[j].To == to)))
 //@   ensures from != to && r == nil ==> (forall i int :: 0 <= i && i < len(rates) ==> !(rates[i].From == from && rates[i].To == to))
+//
+// ---- C18: a currency code passes validation exactly when it is empty or defined
+//@ func inDefinitions(code) (err)
+//@   ensures err == nil <==> code == "" || defined(code)
+//@ func (c Code) Validate() (err)
+//@   ensures err == nil <==> c == "" || defined(c)
